@@ -17,7 +17,7 @@ RT_TB = [
     "modelled, differentially validated: ParseRealtime (extension pre-pass, merge loop, link resolution, sorts), parseAlert, extensions/nycttrips, extensions/nyctalerts as Gtfs.Rt.* (hand-written Lean model over the decoded FeedMessage; compared on every generated message, all fields, through the public API)",
     "model boundary: protobuf-go Unmarshal / HasExtension / GetExtension (trusted; the harness builds messages with proto.Marshal and feeds the bytes to ParseRealtime)",
     "regexp on the fixed patterns startTimeRegex, startDateRegex, TripIDRegex, elevatorAlertIDRegex: hand-written matchers, the pattern texts are regenerated from the source and pinned by theorems, the matchers are differentially validated",
-    "time.Date / time.Unix / Location: a date is its civil day number (Gtfs.Civil, Hinnant's algorithm with time.Date's normalisation), an instant its Unix seconds; the instant at which a date is surfaced is Gtfs.Zone.dateUnix, which follows the code of time.Date (go1.23: two look-ups) over the zone's transition table; the table is exported from the implementation's own zone database by walking Time.ZoneBounds (tz database, LoadLocation and ZoneBounds trusted; table range 1980-2045, dates outside it carry no instant on either side) and the model's instant is compared with .Unix() of the real value for every date of every case; that the result carries the configured *time.Location is observed on the implementation by the canonicaliser",
+    "time.Date / time.Unix / Location: a date is its civil day number (Gtfs.Civil, Hinnant's algorithm with time.Date's normalisation), an instant its Unix seconds; the instant at which a date is surfaced is Gtfs.Zone.dateUnix, which follows the code of time.Date (go1.23: two look-ups) over the zone's transition table; the table is exported from the implementation's own zone database by walking Time.ZoneBounds (tz database, LoadLocation and ZoneBounds trusted; table range 1980-2045, dates outside it carry no instant on either side) and the model's instant is compared with .Unix() of the real value for every date of every case; the model of time.Date is additionally validated against the time package itself on twenty zones (transitions at local midnight, skipped calendar days, negative daylight saving, quarter-hour offsets; stream ZON, run with C02: every offset-change day with its neighbours, every day of 1985-2040 in the thorough tier), including that Zone.Settled holds exactly on the days whose instant reads local midnight; that the result carries the configured *time.Location is observed on the implementation by the canonicaliser",
     "Go maps as association lists; sort.Slice as List.mergeSort (keys are distinct where the output is claimed); strconv.Atoi without overflow; encoding/json of the NYCT metadata is opaque (marker text)",
     "enum decoders, enum numbers and NYCT tables are regenerated from the source (Gen.Enums, Gen.NyctTables)",
 ]
@@ -101,6 +101,7 @@ PROPS = {
     "C02": {
         "module": "GtfsVerif.Props.C02",
         "trusted_base": RT_TB,
+        "runs": [{"cmd": "run", "prop": "C02"}, {"cmd": "run", "prop": "ZON"}],
         "partial": ["'exactly one Trip per distinct descriptor / one Vehicle per distinct vehicle' is proved on the model for conflict-free messages (C02_trips_exact, C02_vehicles_exact: present iff mentioned, once, with the own entity's data or the bare identifier; id-less vehicles one per id-less mention in feed order); that the surfaced Trip.Vehicle / Vehicle.Trip pointers agree with these entries is C04's part",
                     "'local midnight' is proved for every fixed offset unconditionally and for zones with transitions under the decidable condition Zone.Settled (time.Date's second guess is consistent; guaranteed when no transition lies in the window its look-ups reach: C02_start_date_midnight_quiet); where the wall clock skips midnight (Havana-style transitions at 00:00) no instant reads midnight and time.Date's answer, which the model reproduces, is outside the statement; the zone table itself comes from the implementation's tz database (trusted)"],
         "assumptions": ["protobuf required fields are present after Unmarshal (header, entity id, trip of a trip update)"],
